@@ -373,7 +373,8 @@ EvGroups(St, e, p) == IF e = "BRDeleted" THEN (IF IsFrac(p) THEN GrpSet(p) ELSE 
 StartHdlC(St, e, p, m) == NextGroup([L0 EXCEPT !.t = "hdl", !.p = p, !.e = e, !.ctxt = "top", !.gs = HdlGroups(St, e, p)], m)
 HdlEnabled(St, e, p) ==
   CASE e = "PodDeleted" -> Exists(St, p)
-    [] e = "PodCompleted" -> St.pods[p].ph = "Running"
+    \* (a bound pod may reach a terminal phase without ever being seen Running: rejected by the kubelet, or short)
+    [] e = "PodCompleted" -> St.pods[p].ph = "Running" \/ (St.pods[p].ph = "Pending" /\ St.pods[p].node # "")
     [] e = "BRDeleted" -> St.br[p].ex = 1
     [] OTHER -> FALSE
 
